@@ -84,18 +84,20 @@ class MPLSVPN(NLRI):
             else:
                 nlri_dict['label'] = [MPLSVPN.WITHDARW_LABEL]
 
-            nlri_dict['rd'] = MPLSVPN.parse_rd(value[4:12])
-            prefix = value[12:prefix_byte_len + 1]
+            # the label stack may hold more than one label
+            label_byte_len = 3 * len(nlri_dict['label'])
+            nlri_dict['rd'] = MPLSVPN.parse_rd(value[1 + label_byte_len:9 + label_byte_len])
+            prefix = value[9 + label_byte_len:prefix_byte_len + 1]
             if cls.AFI == afn.AFNUM_INET and cls.SAFI == safn.SAFNUM_LAB_VPNUNICAST:
                 if len(prefix) < 4:
                     prefix += b'\x00' * (4 - len(prefix))
                 nlri_dict['prefix'] = str(netaddr.IPAddress(struct.unpack('!I', prefix)[0])) +\
-                    '/%s' % (prefix_bit_len - 88)
+                    '/%s' % (prefix_bit_len - 64 - 8 * label_byte_len)
             elif cls.AFI == afn.AFNUM_INET6 and cls.SAFI == safn.SAFNUM_LAB_VPNUNICAST:
                 if len(prefix) < 16:
                     prefix += b'\x00' * (16 - len(prefix))
                 nlri_dict['prefix'] = str(netaddr.IPAddress(int(binascii.b2a_hex(prefix), 16), 6)) +\
-                    '/%s' % (prefix_bit_len - 88)
+                    '/%s' % (prefix_bit_len - 64 - 8 * label_byte_len)
             value = value[prefix_byte_len + 1:]
             nlri_list.append(nlri_dict)
         return nlri_list
